@@ -192,6 +192,51 @@ static void mode_svd(const Desc& d)
     }
 }
 
+// partial convergence sweep: two close wanted singular values, every maxit in 1..40: the converged set passes through
+// configurations with a hole (a later triplet converges before an earlier one); whatever is returned must be consistent
+static void svd_sweep(const Desc& d)
+{
+    Rng r((uint64_t) d.i("seed", 1) * 91 + 5);
+    for (int rep = 0; rep < 2; rep++)
+    {
+        const int m = rep ? 40 + r.below(20) : 60 + r.below(30), n = rep ? 60 + r.below(30) : 40 + r.below(20);
+        const int mn = std::min(m, n);
+        VecL s(mn);
+        const LD lead[5] = {3.0L, 2.8L, 2.6L, 2.40L, 2.39L};
+        for (int i = 0; i < mn; i++)
+            s[i] = i < 5 ? lead[i] : 1.0L / (LD)(i - 3);
+        MatL U = rand_orth(m, r), V = rand_orth(n, r);
+        MatL AL0 = U.leftCols(mn) * s.asDiagonal() * V.leftCols(mn).transpose();
+        Eigen::MatrixXd A = AL0.cast<double>();
+        MatL AL = A.cast<LD>();
+        Eigen::JacobiSVD<MatL> ref(AL);
+        VecL sref = ref.singularValues();
+        const int ncv = 7 + r.below(4);
+        for (int mx = 1; mx <= 40; mx++)
+        {
+            PartialSVDSolver<Eigen::MatrixXd> svd(A, 5, ncv);
+            ll nconv = (ll) svd.compute(mx, 1e-10);
+            Line l("Svd");
+            l.str("st", "dense").i("rm", 0).i("m", m).i("n", n).i("ncomp", 5).i("ncv", ncv).i("call", 1).i("maxit", mx).i("qtol", q((LD) 1e-10));
+            l.i("qn", q((LD) std::max(m, n))).i("rank", mn);
+            // the returned singular values need not be the leading ones when the run is partial: match each to the nearest reference value
+            Eigen::VectorXd sv = svd.singular_values();
+            VecL near(sv.size());
+            for (int i = 0; i < (int) sv.size(); i++)
+            {
+                int bi = 0;
+                for (int j = 1; j < mn; j++)
+                    if (std::fabs(sref[j] - (LD) sv[i]) < std::fabs(sref[bi] - (LD) sv[i]))
+                        bi = j;
+                near[i] = sref[bi];
+            }
+            svd_observe(l, svd, A, AL, near, 5, nconv);
+            l.i("fdg", 0).i("fnconv", nconv).i("inc_nconv", 0).i("inc_u1", 0).i("inc_v", 0).i("inc_u", 0).i("partial", 1);
+            out().put(l);
+        }
+    }
+}
+
 // =============================================================================================== C17: LOBPCG
 static void mode_lobpcg(const Desc& d)
 {
@@ -478,7 +523,11 @@ void dispatch(const Desc& d)
     }
     const std::string mode = d.s("mode");
     if (mode == "svd")
+    {
         mode_svd(d);
+        if (d.i("sweep", 1))
+            svd_sweep(d);
+    }
     else if (mode == "lobpcg")
         mode_lobpcg(d);
     else if (mode == "davidson")
